@@ -111,27 +111,46 @@ package syntax
 // matches(rule, s): s is in the language of the tokenizer's own regular
 // expression `rule` (automaton extracted from tokenizer.go on every run).
 
-//@ func syntax.unhex property C08
+//@ func syntax.unhex property C08 C09 C16
 //@   nopanic
 //@   pure
+//@   uses mrostr
+//@   ensures result == mrostr_hex(c)
 //@   requires ('0' <= c && c <= '9') || ('a' <= c && c <= 'f') || ('A' <= c && c <= 'F')
 //@   ensures result < 16
 
-//@ func syntax.parseHexByte property C08
+//@ func syntax.parseHexByte property C08 C09 C16
 //@   nopanic
 //@   pure
+//@   uses mrostr
+//@   ensures result == 16 * mrostr_hex(c0) + mrostr_hex(c1)
 //@   requires ('0' <= c0 && c0 <= '9') || ('a' <= c0 && c0 <= 'f') || ('A' <= c0 && c0 <= 'F')
 //@   requires ('0' <= c1 && c1 <= '9') || ('a' <= c1 && c1 <= 'f') || ('A' <= c1 && c1 <= 'F')
 
-//@ func syntax.unquoteBytes property C08
+//@ func syntax.unquoteBytes property C08 C09 C16
 //@   mode bytes
 //@   nopanic
-//@   uses utf8
+//@   uses utf8 mrostr
 //@   requires matches(tokStringRule, value)
+//@   let A = old(arr(value0))
+//@   let O = off(value0) + 1
+//@   let N = len(value0) - 2
+//@   let P = off(value) - off(value0) - 1
+//@   ensures @declen len(result) == mrostr_olen(A, O, N, N)
+//@   ensures @decoded forall i :: 0 <= i && i < len(result) ==> result[i] == mrostr_dec(A, O, N, i)
+//@   ensures @closed mrostr_runk(A, O, N, N) == 1
 //@   loop 1 invariant len(value0) >= 2 && base(value) == base(value0) && off(value) >= off(value0) + 1 && off(value) + len(value) == off(value0) + len(value0) - 1
 //@   loop 1 invariant arr(value0) == old(arr(value0))
 //@   loop 1 invariant rrun(tokStringRule, value0, off(value) - off(value0)) == rstate(tokStringRule, "\"")
 //@   loop 1 invariant base(buf) != base(value0) && cap(value) >= len(value)
+//@   loop 1 invariant mrostr_runk(A, O, N, P) == 1 && len(buf) == mrostr_olen(A, O, N, P)
+//@   loop 1 invariant forall i :: 0 <= i && i < len(buf) ==> buf[i] == mrostr_dec(A, O, N, i)
+//@   loop 1 apply mrostr_u(A, O, N, P)
+//@   loop 1 apply mrostr_U(A, O, N, P)
+//@   loop 1 apply mrostr_oct(A, O, N, P)
+//@   loop 1 apply mrostr_cpend(A, O, N, P + 5)
+//@   loop 1 apply mrostr_cpend(A, O, N, P + 9)
+//@   loop 1 apply mrostr_mb(A, O, N, P, utf8_w(A, O + P, N - P))
 //@   loop 1 decreases len(value)
 
 //@ func syntax.parseIntOk property C08
@@ -401,3 +420,11 @@ package syntax
 //@   ensures @buffer ghost(wrotebase)[w] == ghost(numbase)[0]
 //@   ensures @value ghost(numfloat)[0] == e.Value
 //@   ensures @shortest64 ghost(numfmt)[0] == 64 * 1000000 + 0 * 1000 + 103
+
+// Multi-step consequences of the decoder's recurrence (each is a finite unrolling, proved
+// by the solver as an obligation of its own, and applied in unquoteBytes).
+//@ lemma mrostr_u property C08 C09 C16 uses mrostr utf8 : forall a arr, o int, n int, j int :: 0 <= j && j + 6 <= n && mrostr_runk(a, o, n, j) == 1 && a[o+j] == 92 && a[o+j+1] == 117 && mrostr_hex(a[o+j+2]) >= 0 && mrostr_hex(a[o+j+3]) >= 0 && mrostr_hex(a[o+j+4]) >= 0 && mrostr_hex(a[o+j+5]) >= 0 ==> mrostr_runk(a, o, n, j+6) == 1 && mrostr_runk(a, o, n, j+5) == 10 && mrostr_runa(a, o, n, j+5) == 256 * mrostr_hex(a[o+j+2]) + 16 * mrostr_hex(a[o+j+3]) + mrostr_hex(a[o+j+4]) && mrostr_olen(a, o, n, j+5) == mrostr_olen(a, o, n, j)
+//@ lemma mrostr_U property C08 C09 C16 uses mrostr utf8 : forall a arr, o int, n int, j int :: 0 <= j && j + 10 <= n && mrostr_runk(a, o, n, j) == 1 && a[o+j] == 92 && a[o+j+1] == 85 && mrostr_hex(a[o+j+2]) >= 0 && mrostr_hex(a[o+j+3]) >= 0 && mrostr_hex(a[o+j+4]) >= 0 && mrostr_hex(a[o+j+5]) >= 0 && mrostr_hex(a[o+j+6]) >= 0 && mrostr_hex(a[o+j+7]) >= 0 && mrostr_hex(a[o+j+8]) >= 0 && mrostr_hex(a[o+j+9]) >= 0 ==> mrostr_runk(a, o, n, j+10) == 1 && mrostr_runk(a, o, n, j+9) == 18 && mrostr_runa(a, o, n, j+9) == 16777216 * mrostr_hex(a[o+j+2]) + 1048576 * mrostr_hex(a[o+j+3]) + 65536 * mrostr_hex(a[o+j+4]) + 4096 * mrostr_hex(a[o+j+5]) + 256 * mrostr_hex(a[o+j+6]) + 16 * mrostr_hex(a[o+j+7]) + mrostr_hex(a[o+j+8]) && mrostr_olen(a, o, n, j+9) == mrostr_olen(a, o, n, j)
+//@ lemma mrostr_oct property C08 C09 C16 uses mrostr utf8 : forall a arr, o int, n int, j int :: 0 <= j && j + 4 <= n && mrostr_runk(a, o, n, j) == 1 && a[o+j] == 92 && mrostr_oct(a[o+j+1]) >= 0 && mrostr_oct(a[o+j+2]) >= 0 && mrostr_oct(a[o+j+3]) >= 0 ==> mrostr_runk(a, o, n, j+4) == 1 && mrostr_runk(a, o, n, j+3) == 20 && mrostr_runa(a, o, n, j+3) == 8 * mrostr_oct(a[o+j+1]) + mrostr_oct(a[o+j+2]) && mrostr_olen(a, o, n, j+3) == mrostr_olen(a, o, n, j)
+//@ lemma mrostr_cpend property C08 C09 C16 uses mrostr utf8 : forall a arr, o int, n int, p int :: 0 <= p && p < n && (mrostr_runk(a, o, n, p) == 10 || mrostr_runk(a, o, n, p) == 18) && mrostr_hex(a[o+p]) >= 0 ==> mrostr_runk(a, o, n, p+1) == 1 && mrostr_olen(a, o, n, p+1) == mrostr_olen(a, o, n, p) + mrostr_cplen(mrostr_cp(mrostr_runa(a, o, n, p), a[o+p])) && (forall x int :: mrostr_olen(a, o, n, p) <= x && x < mrostr_olen(a, o, n, p) + mrostr_cplen(mrostr_cp(mrostr_runa(a, o, n, p), a[o+p])) ==> mrostr_dec(a, o, n, x) == mrostr_cpbyte(mrostr_cp(mrostr_runa(a, o, n, p), a[o+p]), x - mrostr_olen(a, o, n, p)))
+//@ lemma mrostr_mb property C08 C09 C16 uses mrostr utf8 : forall a arr, o int, n int, j int, w int :: 0 <= j && 1 <= w && w <= 4 && j + w <= n && mrostr_runk(a, o, n, j) == 1 && (forall t int :: 0 <= t && t < w ==> mrostr_plain(a[o+j+t])) ==> mrostr_runk(a, o, n, j+w) == 1 && mrostr_olen(a, o, n, j+w) == mrostr_olen(a, o, n, j) + w && (forall x int :: mrostr_olen(a, o, n, j) <= x && x < mrostr_olen(a, o, n, j) + w ==> mrostr_dec(a, o, n, x) == a[o + j + (x - mrostr_olen(a, o, n, j))])
